@@ -6,6 +6,7 @@ import (
 	"os"
 	"runtime/debug"
 	"runtime/pprof"
+	"syscall"
 	"time"
 )
 
@@ -69,6 +70,10 @@ func WorkerMain(p *Program) {
 			pprof.StartCPUProfile(f)
 			defer func() { pprof.StopCPUProfile(); f.Close() }()
 		}
+	}
+	if os.Getenv("VERIF_NO_RLIMIT") == "" {
+		lim := syscall.Rlimit{Cur: 8 << 30, Max: 8 << 30}
+		syscall.Setrlimit(syscall.RLIMIT_AS, &lim)
 	}
 	debug.SetMaxStack(256 << 20)
 	debug.SetGCPercent(200)
